@@ -73,10 +73,23 @@ def gen_filter(rng, cls, names, quad=False):
             d["include"] = sub
         elif x < 0.6:
             d["exclude"] = sub
+        elif x < 0.75:
+            d["include_pred"] = rng.choice(["has_contours", "has_components", "has_anchors",
+                                            "name_startswith:" + sub[0][:1]])
     return d
 
 
-def included_names(desc, names):
+def included_names(desc, names, before=None):
+    if "include_pred" in desc and before is not None:
+        spec = desc["include_pred"]
+        if spec == "has_contours":
+            return {n for n in names if before[n]["contours"]}
+        if spec == "has_components":
+            return {n for n in names if before[n]["components"]}
+        if spec == "has_anchors":
+            return {n for n in names if before[n]["anchors"]}
+        prefix = spec.split(":", 1)[1]
+        return {n for n in names if n.startswith(prefix)}
     if "include" in desc:
         s = set(desc["include"])
         return {n for n in names if n in s}
@@ -364,7 +377,7 @@ def check_scope_and_report(desc, before, after, returned, prefix=""):
         if missing:
             out.append("%sreport: not reported as modified: %s" % (prefix, sorted(missing)))
     if desc["cls"] not in NO_INCLUDE:
-        inc = included_names(desc, names)
+        inc = included_names(desc, names, before)
         allowed = reachable(before, inc)
         anychg = {n for n in names & set(after) if before[n] != after[n]}
         outside = (anychg | removed) - allowed
